@@ -5,6 +5,7 @@ package main
 // page writes are guarded by space checks (C15).
 
 import (
+	"fmt"
 	"go/ast"
 	"go/constant"
 	"go/token"
@@ -702,5 +703,167 @@ func init() {
 			r.Check(wit != nil, "TablePage."+o.Name()+":fixup-covers-delete-marked-rows", "a delete-marked slot still gets its offset fixed when the tuple area moves", "with IsDeleted(size)=true for the inspected slot the fix-up loop of "+o.Name()+" cannot reach SetTupleOffsetAtSlot: rows that are only marked deleted (uncommitted delete) are skipped and come back corrupted when that delete is rolled back")
 		}
 		r.Floor("compaction loops", n, 2)
+	})
+}
+
+func init() {
+	reg("C15-R5", "compaction arithmetic agrees with the bytes moved: in TablePage.UpdateTuple and ApplyDelete the tuple area [free-space pointer, offset of the touched row) is moved by d = (destination low − source low); then (1) the free-space pointer is advanced by exactly d, (2) every slot offset rewritten in the fix-up loop is its old value + d, (3) the rows selected for the fix-up are those below the touched row: the loop compares a slot's offset with a threshold that is the upper end of the moved area, or that end plus the old size of the touched row (which then includes the row itself), (4) the loop visits every slot: its index starts at the constant 0, advances by 1 and is bounded by the tuple count — all four as equalities of linear forms over the function's SSA values", func(w *World, r *Report) {
+		a := w.A()
+		setOff := w.MethodObj("storage/access", "TablePage", "SetTupleOffsetAtSlot")
+		getOff := w.MethodObj("storage/access", "TablePage", "GetTupleOffsetAtSlot")
+		setFSP := w.MethodObj("storage/access", "TablePage", "SetFreeSpacePointer")
+		getCnt := w.MethodObj("storage/access", "TablePage", "GetTupleCount")
+		pure := map[*types.Func]bool{w.MethodObj("storage/tuple", "Tuple", "Size"): true}
+		lf := func(v ssa.Value) LinForm { return linForm(v, pure, 0) }
+		for _, o := range []*types.Func{a.TPUpdate, a.TPApplyDelete} {
+			fn := w.SSA(o)
+			name := "TablePage." + o.Name()
+			// the shift copy
+			var shift *ssa.Call
+			var srcS, dstS *ssa.Slice
+			nShift := 0
+			for _, b := range fn.Blocks {
+				for _, in := range b.Instrs {
+					c, ok := in.(*ssa.Call)
+					if !ok {
+						continue
+					}
+					bi, ok := c.Call.Value.(*ssa.Builtin)
+					if !ok || bi.Name() != "copy" || len(c.Call.Args) != 2 {
+						continue
+					}
+					d, ok1 := c.Call.Args[0].(*ssa.Slice)
+					s, ok2 := c.Call.Args[1].(*ssa.Slice)
+					if !ok1 || !ok2 || !DependsOn(d.X, a.isPageDataSource) || !DependsOn(s.X, a.isPageDataSource) {
+						continue
+					}
+					if s.Low == nil || s.High == nil || d.Low == nil {
+						continue
+					}
+					nShift++
+					shift, srcS, dstS = c, s, d
+				}
+			}
+			if nShift != 1 {
+				r.Undecided(name+":shift-copy", "exactly one copy moves the tuple area inside the page", fmt.Sprintf("%d candidates", nShift))
+				continue
+			}
+			delta := lf(dstS.Low).Sub(lf(srcS.Low))
+			upper := lf(srcS.High)
+			// (1) free-space pointer
+			nF := 0
+			for _, s := range sitesCalling(fn, setFSP) {
+				nF++
+				c := s.(*ssa.Call)
+				got := lf(c.Call.Args[1]).Sub(lf(srcS.Low))
+				r.Check(got.Equal(delta), name+":free-space-pointer-moves-with-the-bytes"+ordinalIn(fn, s, setFSP), "the free-space pointer is advanced by the distance the tuple area was moved", fmt.Sprintf("SetFreeSpacePointer at %s moves the pointer by [%s], the bytes were moved by [%s] (copy at %s)", w.InstrPos(s), got, delta, w.InstrPos(shift)))
+			}
+			r.Floor(name+" SetFreeSpacePointer sites", nF, 1)
+			// (2)-(4) fix-up loop
+			nL := 0
+			for _, s := range sitesCalling(fn, setOff) {
+				hdr := loopHeaderOf(s.Block())
+				if hdr == nil {
+					continue
+				}
+				nL++
+				c := s.(*ssa.Call)
+				ord := ordinalIn(fn, s, setOff)
+				// (2) new offset = old offset of the same slot + delta
+				var oldOff *ssa.Call
+				DependsOn(c.Call.Args[2], func(x ssa.Value) bool {
+					if cc, ok := x.(*ssa.Call); ok && CalleeObj(cc) == getOff && oldOff == nil {
+						oldOff = cc
+					}
+					return false
+				})
+				good := false
+				why := "the new offset is not computed from the slot's old offset"
+				if oldOff != nil {
+					sameSlot := symKey(oldOff.Call.Args[1], pure, 0) == symKey(c.Call.Args[1], pure, 0)
+					got := lf(c.Call.Args[2]).Sub(lf(oldOff))
+					good = sameSlot && got.Equal(delta)
+					why = fmt.Sprintf("slot offset is changed by [%s], the bytes were moved by [%s]", got, delta)
+					if !sameSlot {
+						why = "the old offset is read from another slot than the one written"
+					}
+				}
+				r.Check(good, name+":offset-shift-equals-move-distance"+ord, "a row's slot offset changes by the distance its bytes were moved", why+" (at "+w.InstrPos(s)+")")
+				// (3) selection threshold: a dominating `old offset < T` (or <=) test
+				okSel := false
+				whySel := "no dominating comparison of the slot's old offset with the moved area"
+				for d, child := s.Block().Idom(), s.Block(); d != nil && oldOff != nil; child, d = d, d.Idom() {
+					i := blockIf(d)
+					if i == nil {
+						continue
+					}
+					base, neg := condBase(i.Cond)
+					bo, isBin := base.(*ssa.BinOp)
+					if !isBin {
+						continue
+					}
+					var t ssa.Value
+					strict := true
+					switch {
+					case (bo.Op == token.LSS || bo.Op == token.LEQ) && stripConv(bo.X) == ssa.Value(oldOff):
+						t, strict = bo.Y, bo.Op == token.LSS
+					case (bo.Op == token.GTR || bo.Op == token.GEQ) && stripConv(bo.Y) == ssa.Value(oldOff):
+						t, strict = bo.X, bo.Op == token.GTR
+					default:
+						continue
+					}
+					trueSucc := d.Succs[0]
+					if neg {
+						whySel = "the fix-up sits on the negated side of the comparison at " + w.InstrPos(i)
+						break
+					}
+					if !(trueSucc == child || trueSucc.Dominates(child)) {
+						whySel = "the fix-up is not on the true side of the comparison at " + w.InstrPos(i)
+						break
+					}
+					diff := lf(t).Sub(upper)
+					oldSize := delta.Positive()
+					switch {
+					case strict && diff.IsZero(), strict && diff.Equal(oldSize), !strict && diff.IsZero():
+						okSel = true
+					default:
+						whySel = fmt.Sprintf("rows are selected by offset %s [%s]; the moved area ends at [%s] (copy at %s): rows between the two keep a stale offset, or rows above are shifted", map[bool]string{true: "<", false: "<="}[strict], lf(t), upper, w.InstrPos(shift))
+					}
+					break
+				}
+				r.Check(okSel, name+":fix-up-selects-the-moved-rows"+ord, "exactly the rows whose bytes were moved get a new offset", whySel)
+				// (4) loop over all slots
+				var ph *ssa.Phi
+				DependsOn(c.Call.Args[1], func(x ssa.Value) bool {
+					if p, ok := x.(*ssa.Phi); ok && p.Block() == hdr && ph == nil {
+						ph = p
+					}
+					return false
+				})
+				okLoop := false
+				whyLoop := "the slot index is not the induction variable of the enclosing loop"
+				if ph != nil {
+					init0, step1 := false, false
+					for k, e := range ph.Edges {
+						pred := hdr.Preds[k]
+						if hdr.Dominates(pred) { // back edge
+							f := lf(e).Sub(lf(ph))
+							step1 = f.C == 1 && len(f.T) == 0
+						} else {
+							f := lf(e)
+							init0 = f.C == 0 && len(f.T) == 0
+						}
+					}
+					bound := false
+					if i := blockIf(hdr); i != nil {
+						bound = DependsOn(i.Cond, func(x ssa.Value) bool { return x == ssa.Value(ph) }) && DependsOn(i.Cond, IsCallTo(getCnt))
+					}
+					okLoop = init0 && step1 && bound
+					whyLoop = fmt.Sprintf("loop at %s: starts at 0: %v, step 1: %v, bounded by GetTupleCount: %v", w.Pos(ph.Pos()), init0, step1, bound)
+				}
+				r.Check(okLoop, name+":fix-up-visits-every-slot"+ord, "the fix-up loop runs over all slots of the page (a reused slot with a low number can hold the lowest row)", whyLoop)
+			}
+			r.Floor(name+" offset fix-ups in loops", nL, 1)
+		}
 	})
 }
